@@ -236,13 +236,15 @@ class Driver:
             os.dup2(r_w, 4)
             os.close(c_r)
             os.close(r_w)
+        self.errpath = os.path.join(self.run.dir, "drv-stderr-%d-%d.log" % (os.getpid(), Driver._n))
         cmd = ["unshare", "-m", "--propagation", "private", "sh", "-c",
                'mount --bind "$1" "$2" && shift 2 && exec "$@"', "sh", self.etc, self.run.etc,
                os.path.join(BUILD, "execdrv")]
         self.p = subprocess.Popen(cmd, env=self.env, close_fds=False,
                                   preexec_fn=pre,
                                   stdin=subprocess.DEVNULL, stdout=subprocess.DEVNULL,
-                                  stderr=subprocess.DEVNULL, cwd=self.run.dir)
+                                  stderr=open(self.errpath, "ab"),
+                                  cwd=self.run.dir)
         os.close(c_r)
         os.close(r_w)
         self.cw = c_w
@@ -275,16 +277,30 @@ class Driver:
     def scenario(self, ops):
         blob = b"".join(ops)
         data = struct.pack("<I", len(blob)) + blob
-        try:
-            off = 0
-            while off < len(data):
-                off += os.write(self.cw, data[off:off + (1 << 20)])
-            (total,) = struct.unpack("<I", self._read(4))
-            body = self._read(total)
-        except (EOFError, BrokenPipeError, OSError):
-            self.close()
-            self.start()
-            raise
+        for attempt in (0, 1):
+            try:
+                off = 0
+                while off < len(data):
+                    off += os.write(self.cw, data[off:off + (1 << 20)])
+                (total,) = struct.unpack("<I", self._read(4))
+                body = self._read(total)
+                break
+            except (EOFError, BrokenPipeError, OSError) as e:
+                st = None
+                try:
+                    st = self.p.wait(timeout=5)
+                except Exception:
+                    pass
+                import sys
+                try:
+                    errtxt = open(self.errpath, "rb").read()[-600:]
+                except OSError:
+                    errtxt = b""
+                sys.stderr.write("drv: driver process ended unexpectedly (%r, status %r, stderr %r), restarting\n" % (e, st, errtxt))
+                self.close()
+                self.start()
+                if attempt:
+                    raise
         (st,) = struct.unpack_from("<i", body, 0)
         to = body[4]
         return Result(st, bool(to), decode_events(body[5:]))
